@@ -39,6 +39,9 @@ EDGE = re.compile(r'^\s*(\d+):"out\.(-?\d+)" -> (\d+):"in\.(-?\d+)" \[label=(.*)
 PORT = re.compile(r'PORT="(in|out)\.(-?\d+)"')
 
 
+_NOT_XML = re.compile("[\x00-\x08\x0b\x0c\x0e-\x1f\ufffe\uffff]")
+
+
 def parse_label_attr(rest: str):
     """Candidate readings of the label attribute value at the start of `rest`: a quoted string
     (graphviz escapes only double quotes), an HTML-like <...> string or a bare id."""
@@ -211,7 +214,8 @@ def check_one(h, cfg_desc):
             f.append(Fail("clusters", "nesting", f"cluster{i} inside {clusters[i]}, parent is {par}"))
         name = display_name(h[n].op, bool(cfg_desc.get("qualify")))
         # names are text inside an HTML-like label: `<`, `>` and `&` are written as character references
-        if f"<B>{html.escape(name, quote=False)}</B>" not in label:
+        # (characters that XML cannot represent at all - C0 controls, U+FFFE/F - are drawn as U+FFFD)
+        if f"<B>{html.escape(_NOT_XML.sub(chr(0xFFFD), name), quote=False)}</B>" not in label:
             f.append(Fail("nodes", "display-name", f"node {i}: {name!r} not in label"))
         ports = Counter((d, int(k)) for d, k in PORT.findall(label))
         want = Counter([("in", k) for k in range(h.num_in_ports(n))] + [("out", k) for k in range(h.num_out_ports(n))])
